@@ -13,6 +13,8 @@
 #include <cocls/mutex.h>
 #include <cocls/generator.h>
 #include <cocls/coro_storage.h>
+#include <cocls/alloca_storage.h>
+#include <alloca.h>
 #include <cocls/with_allocator.h>
 #include <cocls/callback_awaiter.h>
 #include <cstring>
@@ -168,6 +170,63 @@ std::string prog_future(vf::rng &r, bool nonheap, std::vector<cocls::reusable_st
         else if (woke.load() != nblock) err = "harness: blocking waiters not released";
         else if (C.released != ncoro + ncb) err = "harness: not all waiters released";
         else if (nonheap && frames) err = "coroutine frames were heap allocated although a warm reusable storage was supplied";
+    }
+    return err;
+}
+
+// ---- the other non-heap frame policies: stack_storage (alloca block of the learned size), placement_alloc, reusable_buffer_storage.
+// "The only allocations in such programs are the coroutine frames the user creates (and those too disappear under a non-heap
+// storage policy)": after one learning / warming call per size word or buffer, rounds of future and mutex traffic whose coroutine
+// frames use these policies must not call operator new at all.
+template <typename St> cocls::with_allocator<St, cocls::async<void>> waiter_pol(St &, cocls::future<int> &f, c20_ctx &C) { bool hv = co_await f.has_value(); C.released++; C.sum += hv; }
+template <typename St> cocls::with_allocator<St, cocls::async<void>> locker_pol(St &, cocls::mutex &mx, c20_ctx &C) { auto own = co_await mx.lock(); C.released++; own.release(); }
+template <typename St> void pol_round(St &st, c20_ctx &C, int what) {
+    if (what == 0) { // future awaited by a coroutine, resolved by ordinary code
+        cocls::future<int> f; cocls::promise<int> p = f.get_promise();
+        { al::creating++; auto a = waiter_pol<St>(st, f, C); al::creating--; a.detach(); }
+        p(7);
+    } else { // mutex held by ordinary code, handed over to a contending coroutine
+        cocls::mutex mx;
+        auto own = mx.try_lock();
+        { al::creating++; auto a = locker_pol<St>(st, mx, C); al::creating--; a.detach(); }
+        own.release();
+    }
+}
+inline void pol_stack_round(std::size_t &word, c20_ctx &C, int what) {
+    cocls::stack_storage st(word);
+    st = alloca(st);
+    pol_round(st, C, what);
+}
+inline std::string prog_other_policies(vf::rng &r, std::string &desc, long &frames, long &deq) {
+    int policy = (int)r.below(3), rounds = 2 + (int)r.below(6);
+    static const char *pn[] = {"stack_storage (learned size word)", "placement_alloc", "reusable_buffer_storage<vector<char>>"};
+    desc = std::string("frames on ") + pn[policy] + ", rounds=" + std::to_string(rounds);
+    c20_ctx C;
+    std::size_t word[2] = {0, 0};
+    alignas(16) char pbuf[1024];
+    std::vector<char> vbuf;
+    int want = 0;
+    // learning / warming call per (policy, coroutine function): outside the measured region
+    for (int what = 0; what < 2; what++) {
+        want++;
+        if (policy == 0) pol_stack_round(word[what], C, what);
+        else if (policy == 2) { cocls::reusable_buffer_storage<std::vector<char>> st(vbuf); pol_round(st, C, what); }
+    }
+    if (policy == 1) want = 0;
+    std::string err;
+    {
+        al::region reg;
+        for (int k = 0; k < rounds; k++) {
+            int what = (int)r.below(2);
+            want++;
+            if (policy == 0) pol_stack_round(word[what], C, what);
+            else if (policy == 1) { cocls::placement_alloc st(pbuf); pol_round(st, C, what); }
+            else { cocls::reusable_buffer_storage<std::vector<char>> st(vbuf); pol_round(st, C, what); }
+        }
+        frames = reg.nframes(); deq = reg.ndeque();
+        if (reg.nother()) err = std::string("allocation by the primitives: ") + al::other_stack;
+        else if (frames) err = "coroutine frames were heap allocated " + std::to_string(frames) + " times in " + std::to_string(rounds) + " rounds although the " + pn[policy] + " policy had already seen frames of these coroutines";
+        else if (C.released != want) err = "harness: not all coroutines completed";
     }
     return err;
 }
@@ -392,7 +451,8 @@ inline void alloc_free_programs(const vf::opts &o, vf::report &R, uint64_t progr
         std::string desc, err; long fr = 0, dq = 0;
         bool nonheap = r.chance(1, 3);
         al::other_recorded.store(0);
-        switch (pn % 8 == 3 ? 6u : r.below(pn % 8 == 7 ? 6 : 5)) {
+        if (pn % 8 == 5) { err = prog_other_policies(r, desc, fr, dq); }
+        else switch (pn % 8 == 3 ? 6u : r.below(pn % 8 == 7 ? 6 : 5)) {
         case 6: err = prog_callback_await(r, nonheap, stor, desc, fr, dq); break;
         case 5: err = prog_cold_thread(r, desc, fr, dq); break;
         case 0: err = prog_future<int>(r, nonheap, stor, Hs, desc, fr, dq); break;
